@@ -337,4 +337,62 @@ def skeleton : List XEv → List FEv
 def inputTextOK (rep : Char → Bool) (pref : List (Str × Str)) (xs : List XEv) : Bool :=
   prefTxt rep pref && xs.all (evTxt rep) && docTextOK (skeleton xs) && repMarkup rep (skeleton xs)
 
+/-! ### adjacent character data
+
+Adjacent TEXT events (the builder makes them for adjacent string children) are
+written as one run of character data and an XML reader reports one event; empty
+TEXT events leave no trace.  `mergeF` / `mergeR` say this on flattened events
+and on what a reader reports. -/
+
+def flushF (t : Str) : List FEv := if t.isEmpty then [] else [.other (.text t false)]
+
+def mergeFGo : Option Str → List FEv → List FEv
+  | none, [] => []
+  | some t, [] => flushF t
+  | none, .other (.text s false) :: es => mergeFGo (some s) es
+  | some t, .other (.text s false) :: es => mergeFGo (some (t ++ s)) es
+  | none, e :: es => e :: mergeFGo none es
+  | some t, e :: es => flushF t ++ e :: mergeFGo none es
+
+def mergeF (fs : List FEv) : List FEv := mergeFGo none fs
+
+def flushR (t : Str) : List REv := if t.isEmpty then [] else [.text t]
+
+def mergeRGo : Option Str → List REv → List REv
+  | none, [] => []
+  | some t, [] => flushR t
+  | none, .text s :: es => mergeRGo (some s) es
+  | some t, .text s :: es => mergeRGo (some (t ++ s)) es
+  | none, e :: es => e :: mergeRGo none es
+  | some t, e :: es => flushR t ++ e :: mergeRGo none es
+
+/-- adjacent character data merged, empty character data dropped -/
+def mergeR (rs : List REv) : List REv := mergeRGo none rs
+
+def flushX (t : Str) : List XEv := if t.isEmpty then [] else [.ev (.text t false)]
+
+/-- the same on events after `EmptyTagFilter`; namespace events are passed on at
+    once (they do not interact with character data) -/
+def mergeXGo : Option Str → List XEv → List XEv
+  | none, [] => []
+  | some t, [] => flushX t
+  | none, .ev (.text s false) :: es => mergeXGo (some s) es
+  | some t, .ev (.text s false) :: es => mergeXGo (some (t ++ s)) es
+  | acc, .ev (.startNs p u) :: es => .ev (.startNs p u) :: mergeXGo acc es
+  | acc, .ev (.endNs p) :: es => .ev (.endNs p) :: mergeXGo acc es
+  | none, e :: es => e :: mergeXGo none es
+  | some t, e :: es => flushX t ++ e :: mergeXGo none es
+
+def mergeX (xs : List XEv) : List XEv := mergeXGo none xs
+
+/-- the input-side hypothesis of `xml_roundtrip`: like `inputTextOK`, with
+    character data allowed to be adjacent and empty -/
+def noSafeText : XEv → Bool
+  | .ev (.text _ true) => false
+  | _ => true
+
+def inputTextOKm (rep : Char → Bool) (pref : List (Str × Str)) (xs : List XEv) : Bool :=
+  prefTxt rep pref && xs.all (evTxt rep) && xs.all noSafeText && docTextOK (mergeF (skeleton xs)) &&
+  repMarkup rep (skeleton xs)
+
 end Genshi.Xml
